@@ -38,6 +38,16 @@
 //	    handled; k >= 1: it becomes done while the k-th Step runs).  looks: whether the
 //	    implementation was seen to look at the context in that loop (probed; sasl.go: 0).
 //
+// Round D:
+//
+//	srvg <top> <mid> <when> <smechs> <steps> <perm> <peer>   like srv with a negotiation context
+//	    that becomes done at the moment <when>: F<j> while peer element j is in flight (F0: before
+//	    the receiving loop's first test), S<k> inside the k-th Step (k >= 1), W<w> while the w-th
+//	    SASL element (from 0) is being written (cancelled inside the connection's Write).
+//	    top / mid: at which iterations of its loop the implementation was seen to test the context
+//	    before reading / after the Step (probed; one 0/1 per iteration 0..3, the last for all later
+//	    ones; sasl.go: 0000 0000).  (srvc lines of round C are still replayed.)
+//
 // sent: what the library wrote: auth/<mech>/<pl>, resp/<pl>, chal/<pl>, succ/<pl>,
 // fail/<condition>.  calls: the challenges handed to Step after Start (pl syntax).
 // perm: 'none' | 'any' | <userhex>/<passhex> - which credentials the permission
@@ -444,7 +454,27 @@ func negotiate(conn *nc.Conn, recv bool, f xmpp.StreamFeature) (res negResult) {
 	return negotiateCtx(context.Background(), conn, recv, f)
 }
 
+// hookConn lets a case act at the moment the library makes its n-th Write call (the context
+// becomes done while an element is being written).
+type hookConn struct {
+	*nc.Conn
+	writes  int
+	onWrite func(n int)
+}
+
+func (h *hookConn) Write(p []byte) (int, error) {
+	h.writes++
+	if h.onWrite != nil {
+		h.onWrite(h.writes)
+	}
+	return h.Conn.Write(p)
+}
+
 func negotiateCtx(ctx context.Context, conn *nc.Conn, recv bool, f xmpp.StreamFeature) (res negResult) {
+	return negotiateRW(ctx, conn, conn, recv, f)
+}
+
+func negotiateRW(ctx context.Context, conn *nc.Conn, rw io.ReadWriter, recv bool, f xmpp.StreamFeature) (res negResult) {
 	res.conn = conn
 	feat := instrument(f, &res)
 	neg := xmpp.NewNegotiator(func(*xmpp.Session, *xmpp.StreamConfig) xmpp.StreamConfig {
@@ -454,9 +484,9 @@ func negotiateCtx(ctx context.Context, conn *nc.Conn, recv bool, f xmpp.StreamFe
 		var s *xmpp.Session
 		var err error
 		if recv {
-			s, err = xmpp.ReceiveSession(ctx, conn, xmpp.Secure, neg)
+			s, err = xmpp.ReceiveSession(ctx, rw, xmpp.Secure, neg)
 		} else {
-			s, err = xmpp.NewSession(ctx, jid.MustParse("example.net"), jid.MustParse("user@example.net"), conn, xmpp.Secure, neg)
+			s, err = xmpp.NewSession(ctx, jid.MustParse("example.net"), jid.MustParse("user@example.net"), rw, xmpp.Secure, neg)
 		}
 		res.sessErr = err
 		if s != nil {
@@ -519,6 +549,9 @@ type cliCase struct {
 	env    bool
 	wfail  int
 	cancel int
+	// cancelW > 0: the context becomes done while the cancelW-th SASL element (from 1) the
+	// initiator writes is inside the connection's Write (line field "w<n>", n from 0)
+	cancelW int
 	// pol != "": operation "clip" (steps may panic; pol = the probed recovery policy)
 	pol string
 }
@@ -577,6 +610,9 @@ func (c cliCase) line() string {
 		}
 		if c.cancel >= 0 {
 			k = fmt.Sprint(c.cancel)
+		}
+		if c.cancelW > 0 {
+			k = fmt.Sprintf("w%d", c.cancelW-1)
 		}
 		return fmt.Sprintf("clie %s %s %s %s %s %s", b, k, encNames(c.mechs), encNames(c.adv), fieldSteps(c.steps), common.Join(c.peer, ","))
 	}
@@ -664,7 +700,16 @@ func runClient(r *common.Run, c cliCase, class string) error {
 		// write 1 is the stream header
 		conn.FailWriteCall = 1 + c.wfail
 	}
-	res := negotiateCtx(ctx, conn, false, xmpp.SASL("", "secret", mechs...))
+	var rw io.ReadWriter = conn
+	if c.env && c.cancelW > 0 {
+		// write 1 is the stream header
+		rw = &hookConn{Conn: conn, onWrite: func(n int) {
+			if n == 1+c.cancelW {
+				cancelCtx()
+			}
+		}}
+	}
+	res := negotiateRW(ctx, conn, rw, false, xmpp.SASL("", "secret", mechs...))
 	if c.dyn != nil {
 		c.peer = delivered
 	}
@@ -859,10 +904,44 @@ type srvCase struct {
 	allScripted bool
 	// pol != "": operation "srvp" (steps / the permission callback may panic)
 	pol string
-	// ctxOn: operation "srvc": the negotiation context is done from the cancel-th loop test on
-	ctxOn  bool
-	cancel int
-	looks  bool
+	// ctxOn: operation "srvg": the negotiation context becomes done at the moment `when`:
+	// F<j> while peer element j is in flight (j = 0: before the loop's first test), S<k> inside
+	// the k-th Step (k >= 1), W<w> while the w-th SASL element (from 0) is being written.
+	// top / mid: at which iterations the implementation was seen to test the context (probed).
+	ctxOn    bool
+	when     string
+	top, mid string
+}
+
+// moments: every moment at which the context of an exchange of n peer elements can become
+// done: element j in flight, inside Step k, while SASL element w is being written
+func moments(n int) []string {
+	out := []string{"F0"}
+	for j := 0; j < n; j++ {
+		if j > 0 {
+			out = append(out, fmt.Sprintf("F%d", j))
+		}
+		out = append(out, fmt.Sprintf("S%d", j+1), fmt.Sprintf("W%d", j))
+	}
+	return out
+}
+
+// whenOf: the round C numbering (0: first element in flight; k >= 1: inside the k-th Step)
+func whenOf(k int) string {
+	if k == 0 {
+		return "F0"
+	}
+	return fmt.Sprintf("S%d", k)
+}
+
+func parseWhen(w string) (kind byte, n int, err error) {
+	if len(w) < 2 || strings.IndexByte("FSW", w[0]) < 0 {
+		return 0, 0, fmt.Errorf("bad moment %q", w)
+	}
+	if _, e := fmt.Sscanf(w[1:], "%d", &n); e != nil || (w[0] == 'S' && n == 0) {
+		return 0, 0, fmt.Errorf("bad moment %q", w)
+	}
+	return w[0], n, nil
 }
 
 func (c srvCase) line() string {
@@ -873,7 +952,7 @@ func (c srvCase) line() string {
 		return fmt.Sprintf("srvp %s %s %s %s %s", c.pol, encNames(c.mechs), fieldSteps(c.steps), c.perm, common.Join(c.peer, ","))
 	}
 	if c.ctxOn {
-		return fmt.Sprintf("srvc %s %d %s %s %s %s", common.B(c.looks), c.cancel, encNames(c.mechs), fieldSteps(c.steps), c.perm, common.Join(c.peer, ","))
+		return fmt.Sprintf("srvg %s %s %s %s %s %s %s", c.top, c.mid, c.when, encNames(c.mechs), fieldSteps(c.steps), c.perm, common.Join(c.peer, ","))
 	}
 	op := "srv"
 	if c.allScripted {
@@ -960,41 +1039,49 @@ func permFunc(spec string, t *trace) (func(*sasl.Negotiator) bool, error) {
 	}, nil
 }
 
-func runServer(r *common.Run, c srvCase, class string) error {
-	var t trace
-	mechs := buildMechs(c.mechs, c.steps, &t, c.allScripted)
+// execServer runs one receiving session of the case on the code under test.
+func execServer(c srvCase, tp *trace) (res negResult, delivered []string, conn *nc.Conn, err error) {
+	t := tp
+	mechs := buildMechs(c.mechs, c.steps, t, c.allScripted)
 	if len(mechs) == 0 {
-		return fmt.Errorf("server case without mechanisms")
+		return res, nil, nil, fmt.Errorf("server case without mechanisms")
 	}
-	perm, err := permFunc(c.perm, &t)
+	perm, err := permFunc(c.perm, t)
 	if err != nil {
-		return err
+		return res, nil, nil, err
 	}
 	ctx, cancelCtx := context.WithCancel(context.Background())
 	defer cancelCtx()
-	if c.ctxOn && c.cancel >= 1 {
+	var wk byte
+	var wn int
+	if c.ctxOn {
+		if wk, wn, err = parseWhen(c.when); err != nil {
+			return res, nil, nil, err
+		}
+	}
+	if wk == 'S' {
 		t.onStep = func(n int) {
-			if n == c.cancel {
+			if n == wn {
 				cancelCtx()
 			}
 		}
 	}
 	chunks := []nc.Chunk{nc.S(nc.Header("jabber:client", "", "", "example.net"))}
 	restarted := func(w []byte) bool { return bytes.Count(w, []byte("<?xml")) > 1 }
-	var delivered []string
 	for k, ev := range c.peer {
 		ev, k := ev, k
 		x, err := srvEventXML(ev)
 		if err != nil {
-			return err
+			return res, nil, nil, err
 		}
 		chunks = append(chunks, nc.Chunk{Dyn: func(w []byte) []byte {
 			if restarted(w) || bytes.Contains(w, []byte("<success")) {
 				return nil
 			}
 			delivered = append(delivered, ev)
-			if c.ctxOn && c.cancel == 0 && k == 0 {
-				// the first element is in flight: the context is done before the loop's first test
+			if wk == 'F' && k == wn {
+				// this element is in flight (the first one: the context is done before the
+				// loop's first test)
 				cancelCtx()
 			}
 			return []byte(x)
@@ -1006,12 +1093,42 @@ func runServer(r *common.Run, c srvCase, class string) error {
 		}
 		return nil
 	}})
-	conn := nc.NewConn(chunks...)
+	conn = nc.NewConn(chunks...)
 	if c.wfail > 0 {
 		// writes 1 and 2 are the stream header and the features list
 		conn.FailWriteCall = 2 + c.wfail
 	}
-	res := negotiateCtx(ctx, conn, true, xmpp.SASLServer(perm, mechs...))
+	var rw io.ReadWriter = conn
+	if wk == 'W' {
+		rw = &hookConn{Conn: conn, onWrite: func(n int) {
+			if n == 3+wn {
+				cancelCtx()
+			}
+		}}
+	}
+	res = negotiateRW(ctx, conn, rw, true, xmpp.SASLServer(perm, mechs...))
+	return res, delivered, conn, nil
+}
+
+func countSent(conn *nc.Conn, local string) int {
+	streams, _ := nc.ParseWritten(conn.Written())
+	n := 0
+	if len(streams) > 0 {
+		for _, e := range streams[0].Elems {
+			if e.Name.Space == nsSASL && e.Name.Local == local {
+				n++
+			}
+		}
+	}
+	return n
+}
+
+func runServer(r *common.Run, c srvCase, class string) error {
+	var t trace
+	res, delivered, conn, err := execServer(c, &t)
+	if err != nil {
+		return err
+	}
 
 	streams, perr := nc.ParseWritten(conn.Written())
 	var sent []string
@@ -1049,7 +1166,17 @@ func runServer(r *common.Run, c srvCase, class string) error {
 	if res.panicV != "" && !injected {
 		obs = "PANIC"
 	}
+	// a real mechanism other than PLAIN (which the model has concretely) on the receiving side:
+	// its observed Step results are the mechanism parameter of the model
+	isReal := false
+	if _, ok := realMech(t.used); ok && t.usedSet && !c.allScripted && t.used != "PLAIN" {
+		isReal = true
+		c.steps = t.results
+	}
 	line := c.line()
+	if isReal {
+		line, obs = canonPayloads(line, obs)
+	}
 	r.Line(line, obs)
 	r.Case(line, true, class+":"+errc)
 
@@ -1151,6 +1278,24 @@ func runServer(r *common.Run, c srvCase, class string) error {
 		}
 		if len(sent) == 0 || !strings.HasPrefix(sent[len(sent)-1], "succ/") {
 			r.Fail("server-authn-signals-success", "no-success-sent", lines, "authenticated without sending <success/>")
+		}
+		if isReal {
+			// a real mechanism other than PLAIN: the application's callback must have accepted
+			accepted := false
+			for _, p := range t.perms {
+				if strings.HasSuffix(p, "=1") {
+					accepted = true
+				}
+			}
+			if !accepted {
+				r.Fail("server-authn-needs-permission", strings.ToLower(t.used)+"-callback-not-consulted", lines,
+					"authenticated through "+t.used+" although the application's permission callback accepted nothing (verdicts: "+common.Join(t.perms, ",")+")")
+			}
+		}
+		if strings.HasPrefix(t.used, "SCRAM-") && !c.allScripted {
+			// xmpp.SASLServer hands the SASL library no salted credentials: the real SCRAM
+			// mechanisms cannot verify anybody's proof, so nobody can have been accepted
+			r.Fail("server-authn-needs-permission", "scram-unverifiable", lines, "authenticated through "+t.used+" although the receiving side has no salted credentials to verify the client proof against")
 		}
 	} else {
 		for _, s := range sent {
@@ -1318,7 +1463,10 @@ func plainPayloads() []string {
 type policies struct {
 	srvPanic string // which panic values negotiateServer recovers: 3 x 0/1 (error, string, other)
 	cliPanic string // the same for negotiateClient
-	looks    bool   // negotiateServer was seen to give up with the context's error
+	// at which iterations of its loop negotiateServer was seen to give up with the context's
+	// error: before reading the element (top) / after the Step, before writing (mid); one
+	// character per iteration 0..3, the last one standing for all later iterations
+	top, mid string
 }
 
 const plainAccepted = "AHVzZXIAc2VjcmV0" // \x00user\x00secret
@@ -1353,16 +1501,27 @@ func probe() policies {
 		resc := negotiate(cc, false, xmpp.SASL("", "secret", m))
 		p.cliPanic += bit(tc.panicked && resc.panicV == "")
 	}
-	ctx, cancel := context.WithCancel(context.Background())
-	defer cancel()
-	var t trace
-	perm, _ := permFunc("any", &t)
-	conn := nc.NewConn(nc.S(nc.Header("jabber:client", "", "", "example.net")), nc.Chunk{Dyn: func([]byte) []byte {
-		cancel()
-		return []byte("<auth xmlns='" + nsSASL + "' mechanism='PLAIN'>" + plainAccepted + "</auth>")
-	}})
-	res := negotiateCtx(ctx, conn, true, xmpp.SASLServer(perm, wrapped(sasl.Plain, &t)))
-	p.looks = res.called > 0 && res.panicV == "" && errors.Is(res.err, context.Canceled) && res.mask&xmpp.Authn == 0
+	// the context: a six-Step mechanism, the context becomes done just before the top test of
+	// iteration i (first element in flight / while challenge i-1 is written) resp. inside the
+	// Step of iteration i; where the run ends tells which test noticed
+	mm := step{kind: "m", resp: []byte{1}}
+	pc := srvCase{mechs: []string{"M1"}, steps: []step{mm, mm, mm, mm, mm, {kind: "d"}}, perm: "any",
+		peer: []string{"AM1/v01", "R-", "R-", "R-", "R-", "R-"}, ctxOn: true}
+	for i := 0; i < 4; i++ {
+		pc.when = "F0"
+		if i > 0 {
+			pc.when = fmt.Sprintf("W%d", i-1)
+		}
+		var t trace
+		res, _, conn, err := execServer(pc, &t)
+		gaveUp := err == nil && res.called > 0 && res.panicV == "" && errors.Is(res.err, context.Canceled) && res.mask&xmpp.Authn == 0
+		p.top += bit(gaveUp && t.nSteps == i)
+		pc.when = fmt.Sprintf("S%d", i+1)
+		var t2 trace
+		res, _, conn, err = execServer(pc, &t2)
+		gaveUp = err == nil && res.called > 0 && res.panicV == "" && errors.Is(res.err, context.Canceled) && res.mask&xmpp.Authn == 0
+		p.mid += bit(gaveUp && t2.nSteps == i+1 && countSent(conn, "challenge") == i)
+	}
 	return p
 }
 
@@ -1398,8 +1557,9 @@ func Run(r *common.Run) error {
 	}
 
 	pol := probe()
-	r.Exhaustive = append(r.Exhaustive, fmt.Sprintf("probed: panics recovered by negotiateServer (error,string,other)=%s, by negotiateClient=%s; negotiateServer gives up on a done context=%v", pol.srvPanic, pol.cliPanic, pol.looks))
+	r.Exhaustive = append(r.Exhaustive, fmt.Sprintf("probed: panics recovered by negotiateServer (error,string,other)=%s, by negotiateClient=%s; negotiateServer tests the context before reading (iterations 0..3+)=%s, after the Step=%s", pol.srvPanic, pol.cliPanic, pol.top, pol.mid))
 	genRoundC(r, rnd, pol)
+	genRoundD(r, rnd, pol)
 
 	// ---- client role, scripted mechanisms: exhaustive over short peer scripts ----
 	depth := r.Pick(3, 4)
@@ -1641,6 +1801,197 @@ func Run(r *common.Run) error {
 	return nil
 }
 
+// stepShapes: every mechanism shape with at most maxMore Steps that say "more" - each with an
+// empty or a non-empty response - followed by a Step that is done (empty / non-empty final
+// data), fails with sasl.ErrAuthn, or fails otherwise.  The response bytes differ by position
+// (base+position) so that a response written at the wrong point shows.  (The hand-picked
+// shapes of the earlier rounds had an empty response only at the first Step.)
+func stepShapes(maxMore int, base byte) [][]step {
+	var out [][]step
+	var rec func(prefix []step)
+	rec = func(prefix []step) {
+		k := byte(len(prefix))
+		for _, last := range []step{{kind: "d"}, {kind: "d", resp: []byte{base + k}}, {kind: "a"}, {kind: "e"}} {
+			out = append(out, append(append([]step(nil), prefix...), last))
+		}
+		if len(prefix) == maxMore {
+			return
+		}
+		rec(append(append([]step(nil), prefix...), step{kind: "m"}))
+		rec(append(append([]step(nil), prefix...), step{kind: "m", resp: []byte{base + k}}))
+	}
+	rec(nil)
+	return out
+}
+
+// respSizes: lengths of a mechanism's response around the base64 quantum (0..4), and around the
+// sizes at which buffered writers / decoders of 512, 1024, 4096 bytes roll over.
+var respSizes = []int{0, 1, 2, 3, 4, 5, 6, 300, 383, 384, 385, 767, 768, 769, 3071, 3072, 3073, 5000}
+
+func sizedResp(n int, seed byte) []byte {
+	b := make([]byte, n)
+	for i := range b {
+		b[i] = seed + byte(i*7)
+	}
+	return b
+}
+
+// genRoundD: the full space of small mechanism shapes (where the response of a Step that says
+// "more" may be empty at ANY position) x short peer scripts, both roles; responses of every size
+// class at every position.
+func genRoundD(r *common.Run, rnd *common.Rand, pol policies) {
+	cshapes := stepShapes(3, 0xA0)
+	for si, sc := range cshapes {
+		for n := 0; n <= 2; n++ {
+			enumerate(cliAlphabet, n, func(peer []string) {
+				_ = runClient(r, cliCase{mechs: []string{"M1"}, adv: []string{"M1"}, steps: sc, peer: peer}, fmt.Sprintf("cli-shape%d", si%4))
+			})
+		}
+		alpha := []string{"cv01", "c-", "sv02", "s-", "f", "cbad"}
+		if !r.Quick() {
+			alpha = cliAlphabet
+		}
+		enumerate(alpha, 3, func(peer []string) {
+			_ = runClient(r, cliCase{mechs: []string{"M1"}, adv: []string{"M1"}, steps: sc, peer: peer}, fmt.Sprintf("cli-shape%d", si%4))
+		})
+		// the complete exchange of this shape, the final element in both forms, and the
+		// premature <success/> at every point of it
+		nm := len(sc) - 1
+		var full []string
+		for k := 0; k < nm; k++ {
+			full = append(full, []string{"cv01", "c-"}[k%2])
+		}
+		for cut := 0; cut <= nm; cut++ {
+			for _, fin := range []string{"s-", "sv02"} {
+				peer := append(append([]string{}, full[:cut]...), fin)
+				_ = runClient(r, cliCase{mechs: []string{"M1"}, adv: []string{"M1"}, steps: sc, peer: peer}, "cli-shape-cut")
+				_ = runClient(r, cliCase{mechs: []string{"M1"}, adv: []string{"M1"}, steps: sc, peer: append(peer, "s-")}, "cli-shape-cut")
+			}
+		}
+	}
+	r.Exhaustive = append(r.Exhaustive, fmt.Sprintf("client role: all %d mechanism shapes (<= 3 Steps saying more, each with an empty or non-empty response, x 4 endings) x all peer scripts of length <= 2 over %d events", len(cshapes), len(cliAlphabet)))
+	sshapes := stepShapes(3, 0xB0)
+	for si, sc := range sshapes {
+		for n := 0; n <= 2; n++ {
+			enumerate(srvAlphabet, n, func(peer []string) {
+				_ = runServer(r, srvCase{mechs: []string{"M1", "M2"}, steps: sc, perm: "any", peer: peer}, fmt.Sprintf("srv-shape%d", si%4))
+			})
+		}
+		alpha := []string{"AM1/v01", "AM1/-", "Rv02", "R-", "B", "Rbad"}
+		if !r.Quick() {
+			alpha = srvAlphabet
+		}
+		enumerate(alpha, 3, func(peer []string) {
+			_ = runServer(r, srvCase{mechs: []string{"M1", "M2"}, steps: sc, perm: "any", peer: peer}, fmt.Sprintf("srv-shape%d", si%4))
+		})
+		nm := len(sc) - 1
+		peer := []string{"AM1/v01"}
+		for k := 0; k < nm; k++ {
+			peer = append(peer, []string{"R-", "Rv02"}[k%2])
+		}
+		for cut := 1; cut <= len(peer); cut++ {
+			_ = runServer(r, srvCase{mechs: []string{"M1", "M2"}, steps: sc, perm: "any", peer: peer[:cut]}, "srv-shape-cut")
+			_ = runServer(r, srvCase{mechs: []string{"M1", "M2"}, steps: sc, perm: "any", peer: append(append([]string{}, peer[:cut]...), "R-")}, "srv-shape-cut")
+		}
+	}
+	r.Exhaustive = append(r.Exhaustive, fmt.Sprintf("server role: all %d mechanism shapes x all peer scripts of length <= 2 over %d events", len(sshapes), len(srvAlphabet)))
+
+	// ---- responses of every size class at every position of a three-Step exchange ----
+	for _, n := range respSizes {
+		for pos := 0; pos < 3; pos++ {
+			kinds := []string{"m", "m", "d"}
+			var cs, ss []step
+			for k := 0; k < 3; k++ {
+				st := step{kind: kinds[k], resp: []byte{0xC0 + byte(k)}}
+				if k == pos {
+					st.resp = sizedResp(n, byte(0x11*(k+1)))
+				}
+				cs, ss = append(cs, st), append(ss, st)
+			}
+			for _, peer := range [][]string{{"cv01", "cv02", "s-"}, {"cv01", "sv02"}, {"cv01", "cv02"}, {"sv01"}} {
+				_ = runClient(r, cliCase{mechs: []string{"M1"}, adv: []string{"M1"}, steps: cs, peer: peer}, "cli-size")
+			}
+			for _, peer := range [][]string{{"AM1/v01", "Rv02", "R-"}, {"AM1/v01", "Rv02"}, {"AM1/v01", "B"}} {
+				_ = runServer(r, srvCase{mechs: []string{"M1"}, steps: ss, perm: "any", peer: peer}, "srv-size")
+			}
+		}
+	}
+	// ---- initiating side: the context becomes done while the w-th element is being written ----
+	for _, sc := range append(cliStepScripts(), stepShapes(2, 0xA0)...) {
+		for _, peer := range [][]string{{}, {"s-"}, {"cv01"}, {"cv01", "s-"}, {"cv01", "cv02", "s-"}, {"cv01", "cv02", "cv03", "s-"}, {"sv01"}, {"cv01", "f"}} {
+			for w := 1; w <= 4; w++ {
+				for _, wf := range []int{0, w, w + 1} {
+					_ = runClient(r, cliCase{mechs: []string{"M1"}, adv: []string{"M1"}, steps: sc, peer: peer, env: true, wfail: wf, cancel: -1, cancelW: w}, "cli-env-write")
+				}
+			}
+		}
+	}
+
+	// ---- receiving side: the real SCRAM mechanisms and ANONYMOUS configured on SASLServer ----
+	// (a real SCRAM client's messages; SASLServer has no salted credentials, so SCRAM can only
+	// fail closed; whatever the mechanism does is observed and replayed through the model)
+	hx := func(s string) string { return "v" + hex.EncodeToString([]byte(s)) }
+	firsts := []string{hx("n,,n=user,r=fyko+d2lbbFgONRv9qkxdawL"), hx("n,,n=user"), hx("n,a=admin,n=user,r=abc"), hx("y,,n=user,r=abc"),
+		hx("p=tls-unique,,n=user,r=abc"), hx("c=biws,r=abc,p=AAAA"), hx("garbage"), hx(",,,"), hx("n,,n=,r="), "-", "eq", "sh", "bad", plainPayloads()[0]}
+	final := hx("c=biws,r=fyko+d2lbbFgONRv9qkxdawL3rfcNHYJY1ZVvWVs7j,p=v0X8v3Bz2T0CJGbJQyF0X+HI4Ts=")
+	for _, mech := range []string{"SCRAM-SHA-1", "SCRAM-SHA-256", "ANONYMOUS"} {
+		for _, cfg := range [][]string{{mech}, {mech, "PLAIN"}, {"M1", mech}} {
+			for _, perm := range []string{"any", "none"} {
+				for _, f := range firsts {
+					for _, post := range [][]string{{}, {"R" + final}, {"R-"}, {"R" + final, "R-"}, {"B"}} {
+						peer := append([]string{"A" + mech + "/" + f}, post...)
+						_ = runServer(r, srvCase{mechs: cfg, steps: []step{{kind: "d"}}, perm: perm, peer: peer}, "srv-real-"+mech)
+					}
+				}
+				_ = runServer(r, srvCase{mechs: cfg, steps: []step{{kind: "d"}}, perm: perm, peer: []string{"R" + final}}, "srv-real-"+mech)
+				for _, w := range []string{"F0", "S1", "W0"} {
+					_ = runServer(r, srvCase{mechs: cfg, steps: []step{{kind: "d"}}, perm: perm, peer: []string{"A" + mech + "/" + firsts[0], "R" + final}, ctxOn: true, when: w, top: pol.top, mid: pol.mid}, "srv-real-ctx-"+mech)
+				}
+			}
+		}
+	}
+
+	// ---- random shapes: longer, empty responses anywhere ----
+	nr := r.Pick(400, 6000)
+	for i := 0; i < nr; i++ {
+		var sc []step
+		for k, ns := 0, rnd.Intn(6); k < ns; k++ {
+			st := step{kind: "m"}
+			if rnd.Chance(1, 2) {
+				st.resp = sizedResp(1+rnd.Intn(5), byte(k))
+			}
+			sc = append(sc, st)
+		}
+		last := step{kind: []string{"d", "d", "d", "a", "e"}[rnd.Intn(5)]}
+		if last.kind == "d" && rnd.Chance(1, 2) {
+			last.resp = []byte{0xDD}
+		}
+		sc = append(sc, last)
+		n := rnd.Intn(len(sc) + 2)
+		cp := make([]string, n)
+		for k := range cp {
+			switch {
+			case rnd.Chance(1, 5):
+				cp[k] = cliAlphabet[rnd.Intn(len(cliAlphabet))]
+			case rnd.Chance(1, 4):
+				cp[k] = []string{"s-", "sv02"}[rnd.Intn(2)]
+			default:
+				cp[k] = []string{"cv01", "c-", "cv0203"}[rnd.Intn(3)]
+			}
+		}
+		_ = runClient(r, cliCase{mechs: []string{"M1"}, adv: []string{"M1"}, steps: sc, peer: cp}, "cli-shape-random")
+		sp := []string{[]string{"AM1/v01", "AM1/-", "AM1/eq"}[rnd.Intn(3)]}
+		for k := 1; k < n; k++ {
+			if rnd.Chance(1, 6) {
+				sp = append(sp, srvAlphabet[rnd.Intn(len(srvAlphabet))])
+			} else {
+				sp = append(sp, []string{"Rv02", "R-", "Req"}[rnd.Intn(3)])
+			}
+		}
+		_ = runServer(r, srvCase{mechs: []string{"M1"}, steps: sc, perm: "any", peer: sp}, "srv-shape-random")
+	}
+}
+
 // genRoundC: Steps and permission callbacks that panic (with an error, a string, another
 // value) at every position, both roles; a negotiation context that is done at every test of
 // the receiving loop.
@@ -1652,10 +2003,10 @@ func genRoundC(r *common.Run, rnd *common.Rand, pol policies) {
 	d := step{kind: "d"}
 	for _, peer := range [][]string{{"B"}, {"Rv01"}, {"AMX/v01"}, {"AM1/bad"}} {
 		// the loop was left on a done context and the success tail ran
-		_ = runServer(r, srvCase{mechs: []string{"M1", "M2"}, steps: []step{d}, perm: "any", peer: peer, ctxOn: true, cancel: 0, looks: pol.looks}, "srv-ctx-corpus")
+		_ = runServer(r, srvCase{mechs: []string{"M1", "M2"}, steps: []step{d}, perm: "any", peer: peer, ctxOn: true, when: whenOf(0), top: pol.top, mid: pol.mid}, "srv-ctx-corpus")
 	}
-	_ = runServer(r, srvCase{mechs: []string{"PLAIN"}, perm: "none", peer: []string{"APLAIN/" + plainPayloads()[0]}, ctxOn: true, cancel: 0, looks: pol.looks}, "srv-ctx-corpus")
-	_ = runServer(r, srvCase{mechs: []string{"M1"}, steps: []step{m(1), m(2), d}, perm: "any", peer: []string{"AM1/v01", "Rv02"}, ctxOn: true, cancel: 1, looks: pol.looks}, "srv-ctx-corpus")
+	_ = runServer(r, srvCase{mechs: []string{"PLAIN"}, perm: "none", peer: []string{"APLAIN/" + plainPayloads()[0]}, ctxOn: true, when: whenOf(0), top: pol.top, mid: pol.mid}, "srv-ctx-corpus")
+	_ = runServer(r, srvCase{mechs: []string{"M1"}, steps: []step{m(1), m(2), d}, perm: "any", peer: []string{"AM1/v01", "Rv02"}, ctxOn: true, when: whenOf(1), top: pol.top, mid: pol.mid}, "srv-ctx-corpus")
 	// a recovered panic whose value is not an error read as "completed without error"
 	_ = runServer(r, srvCase{mechs: []string{"M1", "M2"}, steps: []step{{kind: "ps"}}, perm: "any", peer: []string{"AM1/-"}, pol: pol.srvPanic}, "srv-panic-corpus")
 	_ = runServer(r, srvCase{mechs: []string{"PLAIN"}, perm: "panic-s", peer: []string{"APLAIN/" + plainPayloads()[0]}, pol: pol.srvPanic}, "srv-panic-corpus")
@@ -1715,21 +2066,21 @@ func genRoundC(r *common.Run, rnd *common.Rand, pol policies) {
 	for si, sc := range sscripts {
 		for n := 0; n <= sdepth; n++ {
 			enumerate(srvAlphabet, n, func(peer []string) {
-				for k := 0; k <= n; k++ {
-					_ = runServer(r, srvCase{mechs: []string{"M1", "M2"}, steps: sc, perm: "any", peer: peer, ctxOn: true, cancel: k, looks: pol.looks}, fmt.Sprintf("srv-ctx%d", si))
+				for _, w := range moments(n) {
+					_ = runServer(r, srvCase{mechs: []string{"M1", "M2"}, steps: sc, perm: "any", peer: peer, ctxOn: true, when: w, top: pol.top, mid: pol.mid}, fmt.Sprintf("srv-ctx%d", si))
 				}
 			})
 		}
-		for k := 0; k <= 4; k++ {
-			_ = runServer(r, srvCase{mechs: []string{"M1"}, steps: sc, perm: "any", peer: []string{"AM1/v01", "Rv02", "R-", "R-"}, ctxOn: true, cancel: k, looks: pol.looks}, fmt.Sprintf("srv-ctx%d", si))
+		for _, w := range moments(4) {
+			_ = runServer(r, srvCase{mechs: []string{"M1"}, steps: sc, perm: "any", peer: []string{"AM1/v01", "Rv02", "R-", "R-"}, ctxOn: true, when: w, top: pol.top, mid: pol.mid}, fmt.Sprintf("srv-ctx%d", si))
 		}
 	}
 	for _, perm := range []string{uh + "/" + ph, "none", "any"} {
 		for _, p := range plainPayloads() {
 			for _, pre := range [][]string{{}, {"Rv01"}, {"APLAIN/" + plainPayloads()[1]}} {
-				for k := 0; k <= 1; k++ {
+				for _, w := range []string{"F0", "S1", "W0", "F1", "S2", "W1"} {
 					peer := append(append([]string{}, pre...), "APLAIN/"+p)
-					_ = runServer(r, srvCase{mechs: []string{"PLAIN", "M1"}, steps: []step{m(1), {kind: "a"}}, perm: perm, peer: peer, ctxOn: true, cancel: k, looks: pol.looks}, "srv-plain-ctx")
+					_ = runServer(r, srvCase{mechs: []string{"PLAIN", "M1"}, steps: []step{m(1), {kind: "a"}}, perm: perm, peer: peer, ctxOn: true, when: w, top: pol.top, mid: pol.mid}, "srv-plain-ctx")
 				}
 			}
 		}
@@ -1760,7 +2111,7 @@ func genRoundC(r *common.Run, rnd *common.Rand, pol policies) {
 		} else {
 			sc = append(sc, step{kind: []string{"d", "d", "a", "e"}[rnd.Intn(4)]})
 			perm := []string{"any", "none", uh + "/" + ph}[rnd.Intn(3)]
-			_ = runServer(r, srvCase{mechs: []string{"M2", "PLAIN", "M1"}, steps: sc, perm: perm, peer: peer, ctxOn: true, cancel: rnd.Intn(n + 1), looks: pol.looks}, "srv-ctx-random")
+			_ = runServer(r, srvCase{mechs: []string{"M2", "PLAIN", "M1"}, steps: sc, perm: perm, peer: peer, ctxOn: true, when: moments(n)[rnd.Intn(3*n)], top: pol.top, mid: pol.mid}, "srv-ctx-random")
 		}
 	}
 }
@@ -1772,6 +2123,9 @@ var corpus = []string{
 	"cli M1 M1 mv01,d- cv01",
 	// premature <success/> while the mechanism wants more, then completion on a challenge
 	"cli M1 M1 mv01,mv02,d- sv01,cv02",
+	// premature <success/> accepted when the mechanism's response at that Step is empty
+	"cli M1 M1 mv01,m-,d- sv02",
+	"cli M1 M1 m-,m-,d- s-",
 }
 
 func replayLine(r *common.Run, l string) error {
@@ -1812,7 +2166,10 @@ func replayLine(r *common.Run, l string) error {
 			fmt.Sscanf(f[1], "%d", &c.wfail)
 			c.wfail++
 		}
-		if f[2] != "-" {
+		if strings.HasPrefix(f[2], "w") {
+			fmt.Sscanf(f[2][1:], "%d", &c.cancelW)
+			c.cancelW++
+		} else if f[2] != "-" {
 			fmt.Sscanf(f[2], "%d", &c.cancel)
 		}
 		return runClient(r, c, "replay")
@@ -1833,9 +2190,16 @@ func replayLine(r *common.Run, l string) error {
 		if err != nil {
 			return err
 		}
+		// a round C line: looks at the top of every iteration or nowhere
 		k := 0
 		fmt.Sscanf(f[2], "%d", &k)
-		return runServer(r, srvCase{mechs: decNames(f[3]), steps: st, perm: f[5], peer: list(f[6]), ctxOn: true, cancel: k, looks: f[1] == "1"}, "replay")
+		return runServer(r, srvCase{mechs: decNames(f[3]), steps: st, perm: f[5], peer: list(f[6]), ctxOn: true, when: whenOf(k), top: f[1], mid: "0"}, "replay")
+	case f[0] == "srvg" && len(f) == 8:
+		st, err := steps(f[5])
+		if err != nil {
+			return err
+		}
+		return runServer(r, srvCase{mechs: decNames(f[4]), steps: st, perm: f[6], peer: list(f[7]), ctxOn: true, when: f[3], top: f[1], mid: f[2]}, "replay")
 	case (f[0] == "cli" || f[0] == "clis") && len(f) == 5:
 		st, err := steps(f[3])
 		if err != nil {
